@@ -602,9 +602,13 @@ impl ExecutableContent for SendParameters {
             self.delay_ms as i64
         };
 
-        if delay_ms < 0 {
+        // A delay is also illegal if the due time can't be represented (the timer computes "now + delay").
+        let delay_representable = chrono::Duration::try_milliseconds(delay_ms)
+            .and_then(|d| chrono::Utc::now().checked_add_signed(d))
+            .is_some();
+        if delay_ms < 0 || !delay_representable {
             // Delay is invalid -> Abort
-            error!("Send: delay {} is negative", self.delay_expr);
+            error!("Send: delay {} is negative or too large", self.delay_expr);
             datamodel.internal_error_execution_for_event(&send_id, &fsm.caller_invoke_id);
             return false;
         }
